@@ -15,14 +15,14 @@ import (
 )
 
 type KnownFinding struct {
-	ID          string            `json:"id"`
-	Property    string            `json:"property"`
-	Status      string            `json:"status"` // known | fixed
-	Obligation  string            `json:"obligation"`
-	What        string            `json:"what"`
-	Replay      map[string]string `json:"replay,omitempty"`
-	Commit      string            `json:"commit,omitempty"`
-	AlsoBreaks  []string          `json:"also_breaks,omitempty"`
+	ID         string            `json:"id"`
+	Property   string            `json:"property"`
+	Status     string            `json:"status"` // known | fixed
+	Obligation string            `json:"obligation"`
+	What       string            `json:"what"`
+	Replay     map[string]string `json:"replay,omitempty"`
+	Commit     string            `json:"commit,omitempty"`
+	AlsoBreaks []string          `json:"also_breaks,omitempty"`
 }
 
 type knownFile struct {
@@ -30,11 +30,11 @@ type knownFile struct {
 }
 
 type checkOpts struct {
-	id      string
-	tier    string
-	seed    int
+	id       string
+	tier     string
+	seed     int
 	verifDir string
-	repoDir string
+	repoDir  string
 }
 
 func timeoutFor(tier string) int {
@@ -246,6 +246,9 @@ func runCheck(o checkOpts) int {
 		os.WriteFile(rf, data, 0o644)
 		fmt.Printf("VIOLATION property=%s replay=%s no-failing-input-found\n", o.id, rf)
 		fmt.Printf("  expected obligation %s is no longer generated\n", m)
+	}
+	for _, se := range scriptErrors {
+		engineErrs = append(engineErrs, "malformed SMT script: "+se)
 	}
 	if len(engineErrs) > 0 {
 		for _, e := range engineErrs {
